@@ -9,10 +9,11 @@ duration, x0, x1
        4 end_epoch
        5 tune            x0 = history length (-1: None), x1 = 1 slow branch / 0 fast
        6 end_warmup
-Float payload (float32[F]) per record:
-  transition: [tag written, sum of *all* model-state parameter values seen on entry,
-               own value on entry, chain id]
-  tune:       [first own-key history entry, last own-key history entry, sum, 0]
+Float payload (float32[3 + len(all_keys)]) per record:
+  transition: [tag written, chain id, seq counter on entry] + [min, max of every key in
+              all_keys as seen on entry -> one (min) value per key followed by (max)]
+  tune:       [first own-key history entry, last own-key history entry, number of keys
+               in the history, ...]
 The PRNG key of every call is logged as two uint32 words.
 """
 from __future__ import annotations
@@ -72,9 +73,11 @@ class ProbeKernel(ModelMixin, TransitionMixin, TuningMixin):
         self.kidx = kidx
         self.cap = cap
         self.needs_history = needs_history  # instance attribute shadows ClassVar
+        self.counts_seq = True
         # error_table: int array [chains, total_time] or None
         self.error_table = None if error_table is None else jnp.asarray(error_table, dtype=jnp.int32)
-        self.all_keys = tuple(all_keys) if all_keys is not None else None
+        self.all_keys = tuple(all_keys) if all_keys is not None else self.position_keys
+        self.nf = 3 + 2 * len(self.all_keys)
 
     # -- logging ------------------------------------------------------------------
     def _rec(self, st: ProbeState, key, kind, epoch: EpochState | None, x0=0, x1=0, fl=None):
@@ -84,8 +87,9 @@ class ProbeKernel(ModelMixin, TransitionMixin, TuningMixin):
             row = [kind, epoch.nth_epoch, epoch.config.type, epoch.time, epoch.time_in_epoch,
                    epoch.config.duration, x0, x1]
         row = jnp.stack([jnp.asarray(v, dtype=jnp.int32) for v in row])
-        fl = jnp.zeros(F, jnp.float32) if fl is None else jnp.stack(
-            [jnp.asarray(v, dtype=jnp.float32) for v in fl])
+        fl = list(fl) if fl is not None else []
+        fl = fl + [0.0] * (self.nf - len(fl))
+        fl = jnp.stack([jnp.asarray(v, dtype=jnp.float32).reshape(()) for v in fl])
         i = jnp.minimum(st.cur, self.cap - 1)
         return ProbeState(
             log=st.log.at[i].set(row),
@@ -99,7 +103,7 @@ class ProbeKernel(ModelMixin, TransitionMixin, TuningMixin):
     def init_state(self, prng_key, model_state):
         st = ProbeState(
             log=jnp.zeros((self.cap, W), jnp.int32),
-            flog=jnp.zeros((self.cap, F), jnp.float32),
+            flog=jnp.zeros((self.cap, self.nf), jnp.float32),
             keys=jnp.zeros((self.cap, 2), jnp.uint32),
             cur=jnp.asarray(0, jnp.int32),
             version=jnp.asarray(0, jnp.int32),
@@ -113,9 +117,16 @@ class ProbeKernel(ModelMixin, TransitionMixin, TuningMixin):
         return self._rec(kernel_state, prng_key, 4, epoch)
 
     def _seen(self, model_state):
-        keys = self.all_keys or self.position_keys
-        pos = self.model.extract_position(keys, model_state)
-        return sum(jnp.sum(jnp.asarray(v, jnp.float32)) for v in pos.values())
+        pos = self.model.extract_position(self.all_keys, model_state)
+        mins = [jnp.min(jnp.asarray(pos[k], jnp.float32)) for k in self.all_keys]
+        maxs = [jnp.max(jnp.asarray(pos[k], jnp.float32)) for k in self.all_keys]
+        return mins + maxs
+
+    def _seq(self, model_state):
+        try:
+            return jnp.asarray(self.model.extract_position(["seq"], model_state)["seq"], jnp.float32)
+        except Exception:
+            return None
 
     def _chain_id(self, model_state):
         try:
@@ -133,9 +144,12 @@ class ProbeKernel(ModelMixin, TransitionMixin, TuningMixin):
             code = self.error_table[jnp.minimum(chain, self.error_table.shape[0] - 1), tt]
         else:
             code = jnp.asarray(0, jnp.int32)
-        first_own = jnp.ravel(jnp.asarray(next(iter(own.values())), jnp.float32))[0]
+        seq = self._seq(model_state)
         st = self._rec(kernel_state, prng_key, 3, epoch, x0=adaptive, x1=code,
-                       fl=[tag, self._seen(model_state), first_own, chain])
+                       fl=[tag, chain, -1.0 if seq is None else seq] + self._seen(model_state))
+        if self.counts_seq and seq is not None:
+            new = dict(new)
+            new["seq"] = seq + 1.0
         new_ms = self.model.update_state(new, model_state)
         info = DefaultTransitionInfo(error_code=code, acceptance_prob=jnp.asarray(1.0, jnp.float32),
                                      position_moved=jnp.asarray(1, jnp.int32))
